@@ -31,7 +31,7 @@ type spec struct {
 var specs = map[string]spec{
 	"C06": {
 		jobs: []job{
-			{name: "programs", test: "TestC06Programs", rapid: true, checks: [2]int{40, 1200}, shards: [2]int{8, 12}, secs: [2]int{900, 7200}},
+			{name: "programs", test: "TestC06Programs", rapid: true, checks: [2]int{60, 1200}, shards: [2]int{8, 12}, secs: [2]int{900, 7200}},
 			{name: "rigrandom", test: "TestC06RigRandom", rapid: true, checks: [2]int{2500, 100000}, shards: [2]int{4, 8}, secs: [2]int{900, 7200}},
 			{name: "rigexhaustive", test: "TestC06RigExhaustive", shards: [2]int{16, 16}, count: [2]int{3, 4}, secs: [2]int{900, 14400}},
 		},
@@ -39,23 +39,26 @@ var specs = map[string]spec{
 		assumptions: []string{"the snapshot hook copies references and changes nothing", "'transfer in progress' = the line's lock counters are non-zero, or a snoop command for that (core, line) is outstanding, or (MVP-8) the covering L3 line is locked or has a command outstanding", "the rig steps the controllers in the order CPU.Run uses"},
 	},
 	"C08": {
-		jobs:        []job{{name: "determinism", test: "TestC08", rapid: true, checks: [2]int{60, 2000}, shards: [2]int{16, 16}, secs: [2]int{900, 7200}, cores: 1}},
-		rule:        "Programs of the profiles PRESSURELOAD, MEM, SHADOWSLOW, MEMSAFE, REG (results may be wrong for known reasons: determinism is independent of correctness); each case is judged on 6 of the 33 configurations with one drawn relation against the first run R0 of a fresh machine and a freshly parsed program: repeat x5 in-process; run after 1-3 unrelated machines; 6 machines concurrently in goroutines plus two noise machines of other variants; re-use of one parsed Application for a second and third run on the same configuration and after a run on another configuration; a child process (the test binary re-executed on the case). Compared: outcome class and, for runs that return, cycle count, 32 registers and all memory. Non-trivial = the run has a memory access or a register dependence at distance <= 4; distinct by (text, registers, memory image, relation, configurations).",
+		jobs: []job{
+			{name: "determinism", test: "TestC08", rapid: true, checks: [2]int{200, 4000}, shards: [2]int{8, 8}, secs: [2]int{900, 7200}, cores: 2},
+			{name: "queueiterate", test: "TestC08QueueIterate", shards: [2]int{2, 4}, count: [2]int{30000, 1000000}, secs: [2]int{600, 7200}, cores: 4},
+		},
+		rule:        "Programs of the profiles PRESSURELOAD, MEM, SHADOWSLOW, MEMSAFE, REG (results may be wrong for known reasons: determinism is independent of correctness); each case is judged on 6 of the 33 configurations with one drawn relation against the first run R0 of a fresh machine and a freshly parsed program: repeat x5 in-process; run after 1-3 unrelated machines; 6 machines concurrently in goroutines plus two noise machines of other variants; re-use of one parsed Application for a second and third run on the same configuration and after a run on another configuration; re-use after a run of the same parsed program from another state; a child process (the test binary re-executed on the case); queueiterate = the goroutine interleavings of the queue iterator the control units use, sampled by 30 000 (10^6) repetitions on 4 OS threads under garbage-collection preemption. Compared: outcome class and, for runs that return, cycle count, 32 registers and all memory. Non-trivial = the run has a memory access or a register dependence at distance <= 4; distinct by (text, registers, memory image, relation, configurations).",
 		assumptions: []string{"the text of a Go panic is not part of the claim (a run that does not return has no registers, memory or cycle count)", "a budget overrun is an outcome class like any other: 'hangs once, finishes once' is a violation, 'always hangs' is C07's"},
 	},
 	"C12": {
 		jobs: []job{
-			{name: "model", test: "TestC12Model", rapid: true, checks: [2]int{60, 2500}, shards: [2]int{12, 12}, secs: [2]int{900, 7200}},
+			{name: "model", test: "TestC12Model", rapid: true, checks: [2]int{120, 2500}, shards: [2]int{12, 12}, secs: [2]int{900, 7200}},
 			{name: "table", test: "TestC12Table", secs: [2]int{300, 300}},
-			{name: "valueindep", test: "TestC12ValueIndependence", rapid: true, checks: [2]int{40, 1500}, shards: [2]int{4, 4}, secs: [2]int{900, 7200}},
+			{name: "valueindep", test: "TestC12ValueIndependence", rapid: true, checks: [2]int{100, 1500}, shards: [2]int{4, 4}, secs: [2]int{900, 7200}},
 		},
 		rule:        "model = programs of the profiles REG/MEM/WALK/MEMSAFE: MVP-1's count must equal the sum over the executed instructions (reference trace) of fetch (MemoryAccess) + decode 1 + memory read for a load (MemoryAccess) + InstructionType.Cycles() + write-back (RegisterAccess for a register result, MemoryAccess for a store; ret counts up to execute), the constants being read from common/latency and from the code so that the formula is the oracle; MVP-2 <= MVP-1 on the same run; on every configuration cycles > 0 and cycles >= ceil(executed / max(2, parallelism)) — the relations that use the executed-instruction count are judged only on runs whose result equals the reference. table = the 6 constants of common/latency and InstructionType.Cycles() of the 45 types against the documented values (loads 50, everything else 1), enumerated completely. valueindep = programs whose registers are split into control/address registers and data registers (data never feeds a branch, an address or a divisor; loads write data registers only), two initial states that differ only in data registers, the reference confirming identical pc and address traces: the cycle counts must be equal on every configuration. Non-trivial = (model) the trace has a load, a store and a taken transfer, (valueindep) the two runs end with different registers; distinct by (text, registers, memory image).",
 		assumptions: []string{"the documented latency table is the one of the pinned commit (common/latency cites its source; TestBenchmarks pins cycle counts derived from it): job 'table' compares the constants with it", "issue width bound max(2, parallelism) is deliberately loose"},
 	},
 	"C13": {
 		jobs: []job{
-			{name: "linecache", test: "TestC13LineCache", rapid: true, checks: [2]int{4000, 150000}, shards: [2]int{8, 16}, secs: [2]int{600, 7200}},
-			{name: "keyvalue", test: "TestC13KeyValue", rapid: true, checks: [2]int{5000, 200000}, shards: [2]int{4, 8}, secs: [2]int{600, 7200}},
+			{name: "linecache", test: "TestC13LineCache", rapid: true, checks: [2]int{15000, 150000}, shards: [2]int{8, 16}, secs: [2]int{600, 7200}},
+			{name: "keyvalue", test: "TestC13KeyValue", rapid: true, checks: [2]int{15000, 200000}, shards: [2]int{4, 8}, secs: [2]int{600, 7200}},
 			{name: "exhaustive", test: "TestC13Exhaustive", shards: [2]int{4, 16}, count: [2]int{5, 7}, secs: [2]int{600, 7200}},
 		},
 		rule:        "Histories of push (PushLine), pushwarn (PushLineWithEvictionWarning followed by EvictCacheLine of the reported victim), get, write, evict, GetCacheLine and GetSubCacheLine on comp.LRUCache against a model holding the resident lines, their bytes and two recency orders (Write refreshing recency or not: the reported victim is asserted when both agree, else either is accepted and counted); after every step all resident lines are compared with the model (count <= capacity, no duplicates, aligned, bytes). Geometries (line bytes x lines): 2x3, 4x4, 64x16, 128x32, 8x2, 16x1 and drawn ones; exhaustive = every history of length <= k (5 quick, 7 thorough) of push/get/write/evict over 4 lines in a 2-line cache. keyvalue = Put/Get/Find histories on common/cache.LRUCache against a recency list. Non-trivial = the history inserts into a full cache after a Get changed the order or a Write happened; distinct by history.",
@@ -63,63 +66,64 @@ var specs = map[string]spec{
 	},
 	"C14": {
 		jobs: []job{
-			{name: "random", test: "TestC14Buses", rapid: true, checks: [2]int{5000, 200000}, shards: [2]int{8, 16}, secs: [2]int{600, 7200}},
+			{name: "random", test: "TestC14Buses", rapid: true, checks: [2]int{8000, 200000}, shards: [2]int{8, 8}, secs: [2]int{600, 7200}, cores: 2},
 			{name: "exhaustive", test: "TestC14Exhaustive", shards: [2]int{5, 5}, count: [2]int{7, 9}, secs: [2]int{600, 7200}},
+			{name: "queueiterate", test: "TestC14QueueIterate", shards: [2]int{2, 4}, count: [2]int{30000, 1000000}, secs: [2]int{600, 7200}, cores: 4},
 		},
-		rule:        "Histories of add (only while CanAdd), tick (cycle+1, Connect), get, pick, revert (of the item just taken), delete-last and clean on comp.BufferedBus(in,out) for capacities 1..4 against a buffer/queue model with an explicit cycle counter, on comp.SimpleBus against a two-slot latch, and push/iterate/remove histories on comp.Queue; after every step the observers (CanGet, CanAdd, IsEmpty, RemainingToAdd, PendingRead, Exists) are compared, every delivery is checked for exactly-once, insertion order (first match for Pick) and cycle > cycle of its Add, and at the end the bus is drained: every item added and not withdrawn came out once. exhaustive = all sequences of length <= k (7 quick, 9 thorough) of the 8 actions for capacities 1..2 and the simple bus. Non-trivial = back-pressure occurred (an add was refused) and >= 3 items were delivered; distinct by history.",
+		rule:        "Histories of add (only while CanAdd), tick (cycle+1, Connect), get, pick, revert (of the item just taken), delete-last and clean on comp.BufferedBus(in,out) for capacities 1..4 against a buffer/queue model with an explicit cycle counter, on comp.SimpleBus against a two-slot latch, and push/iterate/remove histories on comp.Queue; after every step the observers (CanGet, CanAdd, IsEmpty, RemainingToAdd, PendingRead, Exists) are compared, every delivery is checked for exactly-once, insertion order (first match for Pick) and cycle > cycle of its Add, and at the end the bus is drained: every item added and not withdrawn came out once. exhaustive = all sequences of length <= k (7 quick, 9 thorough) of the 9 actions for capacities 1..2 and the simple bus. queueiterate = 30 000 (thorough 10^6) repetitions on 4 OS threads of 'iterate a queue of 2..10 elements while removing the elements handed out', the way the control units use comp.Queue: goroutine interleavings of the iterator's producer are sampled by repetition; every element must be visited in order. Non-trivial = back-pressure occurred (an add was refused) and >= 3 items were delivered; distinct by history.",
 		assumptions: []string{"the pipeline's usage: one Connect per cycle, producers add only while CanAdd is true", "Broadcast is not a pipeline bus in the statement's sense and is not modelled"},
 	},
 	"C15": {
 		jobs: []job{
-			{name: "context", test: "TestC15Context", rapid: true, checks: [2]int{6000, 250000}, shards: [2]int{8, 16}, secs: [2]int{600, 7200}},
-			{name: "rat", test: "TestC15RAT", rapid: true, checks: [2]int{5000, 200000}, shards: [2]int{4, 8}, secs: [2]int{600, 7200}},
+			{name: "context", test: "TestC15Context", rapid: true, checks: [2]int{20000, 250000}, shards: [2]int{8, 16}, secs: [2]int{600, 7200}},
+			{name: "rat", test: "TestC15RAT", rapid: true, checks: [2]int{15000, 200000}, shards: [2]int{4, 8}, secs: [2]int{600, 7200}},
 			{name: "exhaustive", test: "TestC15Exhaustive", shards: [2]int{4, 15}, count: [2]int{5, 6}, secs: [2]int{600, 7200}},
 		},
 		rule:        "context = histories of write(reg, value, tag) / read(reg, tag) / commit / rollback(tag) over three registers on risc.Context, transaction map or rename table, reads made through a parsed 'mv t6, reg' instruction so that registerRead is the path exercised, tags drawn in increasing order (75%) or arbitrarily; model = architectural value plus the uncommitted writes per register; after commit/rollback every register is compared with 'youngest write (older than the tag)', a tagged read must never return a value written by a younger tag, and within the sub-domain 'tags in order and writes within the slots' reads are compared exactly. rat = Write/Read/Find/Values/FindValues histories on comp.RAT (ring 2..10, 3 keys) against a ring model; exhaustive = all histories of length <= k (5 quick, 6 thorough) of 15 actions over 2 keys, 3 values and rings 2 and 3. Non-trivial = (context) a rollback that keeps some writes of a register and discards others, (rat) a Find that has to skip the newest slot; distinct by history.",
 		assumptions: []string{"tags are distinct per in-flight instruction; equal tags resolve to the later arrival", "out-of-order tag arrival is excluded from the value claims while finding F14 is listed in known-findings.txt (the never-younger read claim is judged regardless)"},
 	},
 	"C01": {
-		jobs:        []job{{name: "mixed", test: "TestC01", rapid: true, checks: [2]int{150, 15000}, shards: [2]int{16, 16}, secs: [2]int{900, 7200}}},
+		jobs:        []job{{name: "mixed", test: "TestC01", rapid: true, checks: [2]int{600, 15000}, shards: [2]int{16, 16}, secs: [2]int{900, 7200}}},
 		rule:        "Programs drawn by the concolic builder from the profiles REG 40% / MEM 35% / SHADOW 15% / WALK 10% (3-60 static instructions in quick, up to 200 in thorough; all mnemonics; full-range initial registers; memory images 64 B - 16 KB; exit by ret or fall-through), each run on all 33 configurations (12 variants, parallelism 1..4) and compared with the reference: 32 registers, every memory byte, no error, no panic, within the budget. Non-trivial = >= 5 executed instructions, >= 1 register written and two adjacent independent instructions in the trace; distinct by (program text, registers, memory image).",
 		assumptions: []string{"the reference interpreter harness/ref is the sequential semantics (cross-checked per instruction by C02)", "parallelism p means EU = WU = p on MVP-6.x and p cores on MVP-7.x/8", "a case matching the trigger of a finding listed in /verif/known-findings.txt is not judged on the configurations of that finding (counted under excluded_by_known_finding)", "budget of simulated loop iterations = 16 x (executed instructions + 64) x 309, never wall-clock"},
 	},
 	"C03": {
-		jobs:        []job{{name: "shadow", test: "TestC03", rapid: true, checks: [2]int{150, 15000}, shards: [2]int{16, 16}, secs: [2]int{900, 7200}}},
+		jobs:        []job{{name: "shadow", test: "TestC03", rapid: true, checks: [2]int{600, 15000}, shards: [2]int{16, 16}, secs: [2]int{900, 7200}}},
 		rule:        "SHADOW / SHADOWSLOW programs: taken conditional branches (70%) and j/jal/jalr over shadows of 1-4 hostile instructions (register writes, stores of every width, in-bounds loads, loads from out-of-bounds and negative addresses, div/rem by the zero register, jal, a further branch), branch operands produced by ALU instructions or by loads issued right before the branch (hit or miss: the branch resolves 1 to ~300 cycles after its shadow was dispatched), loop back-edges whose shadow is the loop exit code; run on all 33 configurations (MVP-1..3 as anchors) and compared with the reference. Non-trivial = some control transfer is taken in the reference run and re-running the reference with that transfer forced to fall through changes the final state or faults (the shadow is hostile); distinct by (text, registers, memory image).",
 		assumptions: []string{"the reference interpreter harness/ref is the sequential semantics (cross-checked per instruction by C02)", "parallelism p means EU = WU = p on MVP-6.x and p cores on MVP-7.x/8", "a case matching the trigger of a finding listed in /verif/known-findings.txt is not judged on the configurations of that finding (counted under excluded_by_known_finding)", "budget of simulated loop iterations = 16 x (executed instructions + 64) x 309, never wall-clock"},
 	},
 	"C04": {
-		jobs:        []job{{name: "pressure", test: "TestC04", rapid: true, checks: [2]int{100, 8000}, shards: [2]int{16, 16}, secs: [2]int{900, 7200}}},
+		jobs:        []job{{name: "pressure", test: "TestC04", rapid: true, checks: [2]int{300, 8000}, shards: [2]int{16, 16}, secs: [2]int{900, 7200}}},
 		rule:        "PRESSURE (2-3 registers, ALU only) and PRESSURELOAD (2-4 registers, load producers, slow branches) programs of 3-24 instructions: chains, fans, WAW and WAR pairs, mixed-latency producers, chained forwards; each (case, configuration) is run three times in one process: all three must equal the reference and return the same cycle count. Non-trivial = the dynamic trace holds a RAW, WAW or WAR register dependence at distance <= 4 (classes dep:raw, dep:waw, dep:war, dep:raw-load-producer, dep:chained are counted); distinct by (text, registers, memory image).",
 		assumptions: []string{"the reference interpreter harness/ref is the sequential semantics (cross-checked per instruction by C02)", "parallelism p means EU = WU = p on MVP-6.x and p cores on MVP-7.x/8", "a case matching the trigger of a finding listed in /verif/known-findings.txt is not judged on the configurations of that finding (counted under excluded_by_known_finding)", "budget of simulated loop iterations = 16 x (executed instructions + 64) x 309, never wall-clock"},
 	},
 	"C05": {
-		jobs:        []job{{name: "cache", test: "TestC05", rapid: true, checks: [2]int{60, 3000}, shards: [2]int{16, 16}, secs: [2]int{900, 7200}}},
+		jobs:        []job{{name: "cache", test: "TestC05", rapid: true, checks: [2]int{200, 3000}, shards: [2]int{16, 16}, secs: [2]int{900, 7200}}},
 		rule:        "CACHE (random aligned lb/lh/lw/sb/sh/sw spread over all lines of 2-16 KB memories), WALK (strided loops, strides 1..1024, loads folded into a checksum register, read-modify-write walks) and MEMSAFE (loads and stores on disjoint halves) programs on the 29 configurations with a data cache (MVP-3..8), compared with the reference registers and the whole memory after Run returns. Non-trivial = the run touches more than 16 lines of 64 bytes (the smallest data cache) and some line is written, evicted (ideal-LRU replay of that geometry over the reference trace) and read again; distinct by (text, registers, memory image).",
 		assumptions: []string{"the reference interpreter harness/ref is the sequential semantics (cross-checked per instruction by C02)", "parallelism p means EU = WU = p on MVP-6.x and p cores on MVP-7.x/8", "a case matching the trigger of a finding listed in /verif/known-findings.txt is not judged on the configurations of that finding (counted under excluded_by_known_finding)", "budget of simulated loop iterations = 16 x (executed instructions + 64) x 309, never wall-clock"},
 	},
 	"C07": {
 		jobs: []job{
-			{name: "terminates", test: "TestC07Terminates", rapid: true, checks: [2]int{120, 10000}, shards: [2]int{12, 12}, secs: [2]int{900, 7200}},
-			{name: "errors", test: "TestC07Errors", rapid: true, checks: [2]int{150, 15000}, shards: [2]int{4, 4}, secs: [2]int{900, 7200}},
+			{name: "terminates", test: "TestC07Terminates", rapid: true, checks: [2]int{400, 10000}, shards: [2]int{12, 12}, secs: [2]int{900, 7200}},
+			{name: "errors", test: "TestC07Errors", rapid: true, checks: [2]int{400, 15000}, shards: [2]int{4, 4}, secs: [2]int{900, 7200}},
 		},
 		rule:        "terminates: programs of the profiles REG, MEM, SHADOW, WALK, SHADOWSLOW, MEMSAFE on all 33 configurations; the outcome must be ok within the budget of simulated loop iterations (a recovered Go panic, a budget overrun or an error is a violation; values are not compared). errors: programs that reach a defined error on the executed path — div/rem by the zero register or by a register holding 0, a taken branch or a jump to an undefined label — early, late, inside a counted loop, right after a long-latency load; the outcome must be an error value (ok, a panic or a budget overrun is a violation). Non-trivial = (terminates) the run has a memory access or a taken transfer, (errors) the reference reaches the fault (always, else the case is skipped); distinct by (text, registers, memory image).",
 		assumptions: []string{"the reference interpreter harness/ref is the sequential semantics (cross-checked per instruction by C02)", "parallelism p means EU = WU = p on MVP-6.x and p cores on MVP-7.x/8", "a case matching the trigger of a finding listed in /verif/known-findings.txt is not judged on the configurations of that finding (counted under excluded_by_known_finding)", "budget of simulated loop iterations = 16 x (executed instructions + 64) x 309, never wall-clock"},
 	},
 	"C09": {
-		jobs:        []job{{name: "tail", test: "TestC09", rapid: true, checks: [2]int{200, 20000}, shards: [2]int{16, 16}, secs: [2]int{900, 7200}}},
+		jobs:        []job{{name: "tail", test: "TestC09", rapid: true, checks: [2]int{600, 20000}, shards: [2]int{16, 16}, secs: [2]int{900, 7200}}},
 		rule:        "TAIL programs on the 30 pipelined configurations (MVP-4..8): a random body, then 1-5 controlled last instructions (load missing every cache, load hitting, store to a never-touched line, store to a resident line, two stores back to back, a dependent chain, a producer with no later reader), then the exit point: ret, fall-through, or a taken branch to a final ret; compared with the reference registers and memory. Non-trivial = one of the last five executed instructions is a load or a store (needs >= 3 more cycles at the exit point); distinct by (text, registers, memory image).",
 		assumptions: []string{"the reference interpreter harness/ref is the sequential semantics (cross-checked per instruction by C02)", "parallelism p means EU = WU = p on MVP-6.x and p cores on MVP-7.x/8", "a case matching the trigger of a finding listed in /verif/known-findings.txt is not judged on the configurations of that finding (counted under excluded_by_known_finding)", "budget of simulated loop iterations = 16 x (executed instructions + 64) x 309, never wall-clock"},
 	},
 	"C10": {
-		jobs:        []job{{name: "pairs", test: "TestC10", rapid: true, checks: [2]int{200, 20000}, shards: [2]int{16, 16}, secs: [2]int{900, 7200}}},
+		jobs:        []job{{name: "pairs", test: "TestC10", rapid: true, checks: [2]int{600, 20000}, shards: [2]int{16, 16}, secs: [2]int{900, 7200}}},
 		rule:        "PAIR programs on the 30 pipelined configurations: store->load, load->store and store->store pairs on the same byte/half/word, on different bytes of one word and on another word of the line, at dynamic distance 1..12, through two independent address registers (no register hazard orders the pair), first access hit or miss (line pre-touched or not), optionally separated by a taken branch; compared with the reference (loaded values and memory). Non-trivial = the reference trace holds a byte-overlapping conflicting pair at distance <= 14 (classes conflict:<kind>:<distance bucket>); distinct by (text, registers, memory image).",
 		assumptions: []string{"the reference interpreter harness/ref is the sequential semantics (cross-checked per instruction by C02)", "parallelism p means EU = WU = p on MVP-6.x and p cores on MVP-7.x/8", "a case matching the trigger of a finding listed in /verif/known-findings.txt is not judged on the configurations of that finding (counted under excluded_by_known_finding)", "budget of simulated loop iterations = 16 x (executed instructions + 64) x 309, never wall-clock"},
 	},
 	"C02": {
 		jobs: []job{
 			{name: "lattice", test: "TestC02Lattice", shards: [2]int{8, 15}, secs: [2]int{600, 900}},
-			{name: "random", test: "TestC02Random", rapid: true, checks: [2]int{4000, 300000}, shards: [2]int{8, 16}, secs: [2]int{600, 3600}},
+			{name: "random", test: "TestC02Random", rapid: true, checks: [2]int{12000, 300000}, shards: [2]int{8, 16}, secs: [2]int{600, 3600}},
 			{name: "fuzz", test: "FuzzC02", fuzz: true, tier: "thorough", count: [2]int{0, 60}, secs: [2]int{0, 600}, cores: 8},
 		},
 		rule:        "One-instruction programs assembled by risc.Parse, run through ReadRegisters/WriteRegisters/MemoryRead/MemoryWrite/Run on a plain and on a rename-table context. lattice = 45 mnemonics x 40x40 boundary values x 11 register patterns (distinct, every rd/rs alias, zero in every position), exhaustive; random = rapid-drawn mnemonic, registers (any of 32), operands/immediates (lattice, small, uniformly spread int32), pc and branch target. Two oracles that must agree with each other and with the code: the reference step function and a table of closed-form 64-bit expressions. Non-trivial = operands on which two readings of the instruction differ (signed vs unsigned compare, shift amount > 31 or negative, logical vs arithmetic shift of a negative value, wrap-around of add/sub/mul, sign bit of the loaded sub-word set, negative div/rem operands, stores of values wider than a byte) — or, for the remaining mnemonics, a negative operand or a zero/aliased destination; distinct by (text, operands, pc, target, bytes, context kind).",
@@ -127,10 +131,10 @@ var specs = map[string]spec{
 	},
 	"C11": {
 		jobs: []job{
-			{name: "accepted", test: "TestC11Accepted", rapid: true, checks: [2]int{1500, 40000}, shards: [2]int{4, 8}, secs: [2]int{600, 3600}},
-			{name: "mutations", test: "TestC11Mutations", rapid: true, checks: [2]int{3000, 100000}, shards: [2]int{6, 8}, secs: [2]int{600, 3600}},
-			{name: "alphabet", test: "TestC11Alphabet", rapid: true, checks: [2]int{10000, 400000}, shards: [2]int{3, 4}, secs: [2]int{600, 3600}},
-			{name: "bytes", test: "TestC11Bytes", rapid: true, checks: [2]int{10000, 400000}, shards: [2]int{3, 4}, secs: [2]int{600, 3600}},
+			{name: "accepted", test: "TestC11Accepted", rapid: true, checks: [2]int{5000, 40000}, shards: [2]int{4, 8}, secs: [2]int{600, 3600}},
+			{name: "mutations", test: "TestC11Mutations", rapid: true, checks: [2]int{10000, 100000}, shards: [2]int{6, 8}, secs: [2]int{600, 3600}},
+			{name: "alphabet", test: "TestC11Alphabet", rapid: true, checks: [2]int{30000, 400000}, shards: [2]int{3, 4}, secs: [2]int{600, 3600}},
+			{name: "bytes", test: "TestC11Bytes", rapid: true, checks: [2]int{30000, 400000}, shards: [2]int{3, 4}, secs: [2]int{600, 3600}},
 			{name: "fuzz", test: "FuzzC11", fuzz: true, tier: "thorough", count: [2]int{0, 120}, secs: [2]int{0, 900}, cores: 8},
 		},
 		rule:        "(a) totality: risc.Parse under recover on arbitrary bytes, strings over the assembler alphabet (mnemonics, registers, digits, punctuation, huge immediates), and grammar-directed mutations of formatted valid programs (truncate, delete, insert token, drop/double parenthesis, tabs, duplicate line/label, huge immediate, drop/empty operand, 10^4-character line, token swap); every accepted text is then judged by an independent line grammar: instruction count = instruction lines, label -> 4 x index of the next instruction (either definition of a duplicate), each line this oracle can decode is probed (type, declared sets, one execution on distinct register values against the reference). (b) programs rendered from generated ASTs with drawn formatting (space/tab indentation, blank and CRLF lines, full-line and trailing comments, upper/mixed-case mnemonics, $-registers, spacing around commas and parentheses, +immediates) must be accepted, decode to the AST, and give the same observations as the plain rendering. Non-trivial = (a) input with at least one line that is a valid instruction, (b) program with a label used by a conditional branch and at least one formatting feature; distinct by text.",
@@ -139,7 +143,7 @@ var specs = map[string]spec{
 	"C16": {
 		jobs: []job{
 			{name: "lattice", test: "TestC16Lattice", secs: [2]int{300, 300}},
-			{name: "random", test: "TestC16Random", rapid: true, checks: [2]int{4000, 40000}, shards: [2]int{8, 16}, secs: [2]int{300, 900}},
+			{name: "random", test: "TestC16Random", rapid: true, checks: [2]int{10000, 40000}, shards: [2]int{8, 16}, secs: [2]int{300, 900}},
 			{name: "exhaustive", test: "TestC16Exhaustive", tier: "thorough", shards: [2]int{0, 16}, secs: [2]int{0, 3600}},
 			{name: "fuzz", test: "FuzzC16", fuzz: true, tier: "thorough", count: [2]int{0, 30}, secs: [2]int{0, 300}, cores: 8},
 		},
